@@ -1476,7 +1476,8 @@ pub fn c19_query(pool: &PhrasePool, rng: &mut Rng) -> String {
                 0 => format!("{} {u}^{e}", rng.range(1, 9)),
                 1 => format!("{} {u}^-{e}", rng.range(1, 9)),
                 2 if e < 1_000_000_000 => format!("{} {u}^{} * {} {u}^{}", rng.range(1, 9), e / 2, rng.range(1, 9), e - e / 2),
-                2 => format!("{} / {u}^{e}", rng.range(1, 9)),
+                // (never a number divided by such a power: `3 / m^9999999` takes the tool minutes)
+                2 => format!("{} {u}^-{e}", rng.range(1, 9)),
                 _ => format!("{}.5 {u}^{e} / 2 s^{}", rng.range(1, 9), rng.range(2, 130)),
             }
         }
